@@ -11,6 +11,9 @@ REAL implementation.
     MU     macro, untyped inputs            value-linked to a child C3 `c`
     MM     macro, untyped inputs            value-linked to a child M3 `m` (chain macro → child → grandchild)
     CF     inputs x: float, y: list, z      outputs ox, oy, oz (no hints); returns its arguments
+    C3C    C3 with the cache on;  SrcN = SrcU with the cache off
+    MC     macro, untyped inputs x, y, z, u; children a = SrcN(x), b = SrcN(u), c = C3(x <- a.o then <- b.o, y, z)
+The macros have the cache off (a composite's cache also keys on its internals: C05's subject).
 
 Adversarial values (`make_pool`): objects whose duck-typed surface lies about them — look-alikes of a pint
 quantity, objects with `magnitude` / `units` / `value` / `__len__` / `__iter__` / `__index__` / `__float__` /
@@ -28,10 +31,36 @@ from __future__ import annotations
 from pyiron_workflow import as_function_node, as_macro_node
 
 CALLS: list = []
+WHO: list = []  # full label of the node whose function made the corresponding CALLS entry
+_PATCHED = False
 
 
 def reset():
     CALLS.clear()
+    WHO.clear()
+    _install_who()
+
+
+def _install_who():
+    """class-level wrapper around `Function._on_run` (calls the original): remembers WHICH node's function logged a
+    call — the function itself does not know its node; works on pickled copies too (the label travels)"""
+    global _PATCHED
+    if _PATCHED:
+        return
+    from pyiron_workflow.nodes.function import Function
+
+    orig = Function._on_run
+
+    def _on_run(self, *args, **kwargs):
+        n0 = len(CALLS)
+        try:
+            return orig(self, *args, **kwargs)
+        finally:
+            for _ in range(len(CALLS) - n0):
+                WHO.append(self.full_label)
+
+    Function._on_run = _on_run
+    _PATCHED = True
 
 
 @as_function_node("o", validate_output_labels=False)
@@ -64,19 +93,19 @@ def C3T(x: int, y: str, z) -> tuple[int, str, int]:
     return x, y, z
 
 
-@as_macro_node("ox", "oy", "oz")
+@as_macro_node("ox", "oy", "oz", use_cache=False)
 def M3(self, x: int, y: str, z):
     self.c = C3(x=x, y=y, z=z)
     return self.c.outputs.ox, self.c.outputs.oy, self.c.outputs.oz
 
 
-@as_macro_node("ox", "oy", "oz")
+@as_macro_node("ox", "oy", "oz", use_cache=False)
 def MU(self, x, y, z):
     self.c = C3(x=x, y=y, z=z)
     return self.c.outputs.ox, self.c.outputs.oy, self.c.outputs.oz
 
 
-@as_macro_node("ox", "oy", "oz")
+@as_macro_node("ox", "oy", "oz", use_cache=False)
 def MM(self, x, y, z):
     self.m = M3(x=x, y=y, z=z)
     return self.m.outputs.ox, self.m.outputs.oy, self.m.outputs.oz
@@ -86,6 +115,29 @@ def MM(self, x, y, z):
 def CF(x: float, y: list, z):
     CALLS.append((x, y, z))
     return x, y, z
+
+
+@as_function_node("ox", "oy", "oz", validate_output_labels=False)
+def C3C(x: int, y: str, z):
+    """C3 with the cache ON"""
+    CALLS.append((x, y, z))
+    return x, y, z
+
+
+@as_function_node("o", validate_output_labels=False, use_cache=False)
+def SrcN(a):
+    o = a
+    return o
+
+
+@as_macro_node("ox", "oy", "oz", use_cache=False)
+def MC(self, x, y, z, u):
+    """a macro with three children and a child input holding TWO connections: c.x <- a.o, then c.x <- b.o"""
+    self.a = SrcN(a=x)
+    self.b = SrcN(a=u)
+    self.c = C3(x=self.a, y=y, z=z)
+    self.c.inputs.x.connect(self.b.outputs.o)
+    return self.c.outputs.ox, self.c.outputs.oy, self.c.outputs.oz
 
 
 # ----------------------------------------------------------------------------- adversarial values
